@@ -7,7 +7,7 @@ import c12
 
 CONFIGS_QUICK = ["F_all", "F_def", "F_noenc"]  # every configuration whose cfg-gated code the property depends on
 CONFIGS_THOROUGH = ["F_all", "F_def", "F_noenc"]
-TECHNIQUE = 'static analysis: decision-table extraction by symbolic path walking over rustc MIR (dispatch, scanner automata), constant relations between detection and stripping, value sets of byte predicates, linear-form index agreement of the comment-check scan window'
+TECHNIQUE = 'static analysis: decision-table extraction by symbolic path walking over rustc MIR (dispatch, scanner automata), constant relations between detection and stripping, value sets of byte predicates, linear-form index agreement of the comment-check scan window, per-exit terminator rows of BangType::parse, crate-wide one-whitespace-notion who-may-call rule'
 EXPLANATION = (
     "Markup dispatch table after '<' extracted from both instantiations of read_until_close! (byte peeked -> source "
     "helper and scanner start state -> emitter on Ok -> error position on Err, end of input -> UnclosedTag) and compared "
